@@ -12,6 +12,7 @@ mod tree;
 mod tw;
 mod util;
 mod zig;
+mod quant;
 
 fn main() {
     util::install_quiet_panic_hook();
@@ -57,6 +58,7 @@ fn main() {
         "comp-drive" => comp::drive(rest),
         "zig-export" => zig::export(rest),
         "zig-drive" => zig::drive(rest),
+        "quant-drive" => quant::drive(rest),
         "tree-drive-floats" => tree::drive_floats(rest),
         _ => { eprintln!("unknown subcommand {:?}", cmd); 2 }
     };
